@@ -120,6 +120,20 @@ def run(ctx):
                                 sizes=treegen.SMALL_SIZES + [16384, 65536, 70000],
                                 names="hostile" if rng.chance(1, 3) else "plain")
         roots = tree.roots
+        # twin names differing only in a byte that is not valid UTF-8 (same directory, same content): the listing order
+        # must be the derived Path order whatever the inode / arrival order
+        twin_dir = None
+        if ti % 3 == 0 and tree.files:
+            f0 = tree.files[rng.below(len(tree.files))]
+            data0 = open(f0["path"], "rb").read()
+            twin_dir = os.path.dirname(f0["path"])
+            order = [b"\xe8", b"\xe9", b"\xff"]
+            if rng.chance(1, 2):
+                order.reverse()          # creation order = inode order varies, the listing must not
+            for b in order:
+                tp = os.path.join(twin_dir, b"caf" + b + b".txt")
+                if not os.path.lexists(tp):
+                    tree.add_file(tp, data0, f0["cls"])
         optsets = [[], ["--rf-over", "0"], ["--rf-over", "2"], ["--unique"], ["--rf-under", "3"], ["--match-links"],
                    ["--transform", "cat"]]
         if nroots >= 2:
@@ -149,9 +163,33 @@ def run(ctx):
         if failed:
             continue
         ofile = os.path.join(ctx.scratch, "out%d.txt" % ti)
+        # the output file already exists and is LONGER than the report (a previous, bigger report)
+        with open(ofile, "wb") as f:
+            f.write(b"# stale line of an earlier report\n" * 4000)
         rc, out, err = treegen.fclones(["group"] + roots + opts + ["-o", ofile], cwd=base, env=env)
         ctx.count()
         outs["file"] = open(ofile, "rb").read() if rc == 0 and os.path.exists(ofile) else b""
+        if rc == 0 and outs["file"] != b"" and b"stale line of an earlier report" in outs["file"]:
+            ctx.violation({"kind": "output_file_not_truncated"}, "-o FILE into an existing longer file leaves the stale tail in place",
+                          {"tree": ti, "opts": opts}, found_input=True)
+        fmt2 = rng.choice(["json", "csv", "fdupes"])
+        ofile2 = os.path.join(ctx.scratch, "out%d.%s" % (ti, fmt2))
+        with open(ofile2, "wb") as f:
+            f.write(b"x" * 200000)
+        rc2, _, _ = treegen.fclones(["group"] + roots + opts + ["-f", fmt2, "-o", ofile2], cwd=base, env=env)
+        ctx.count()
+        if rc2 == 0:
+            got2 = open(ofile2, "rb").read()
+            same = got2 == outs[fmt2]
+            if fmt2 == "json":
+                # the JSON header carries the time stamp and the command line of its own run: compare the groups
+                try:
+                    same = treegen.parse_json_report(got2.decode("utf-8"))[1] == treegen.parse_json_report(outs["json"].decode("utf-8"))[1]
+                except Exception:  # noqa  (stale tail => not JSON any more)
+                    same = False
+            if not same:
+                ctx.violation({"kind": "output_file_differs_from_stdout"}, "-f %s -o FILE differs from the same report on stdout" % fmt2,
+                              {"tree": ti, "opts": opts, "format": fmt2}, found_input=True)
         hdr, jgroups = treegen.parse_json_report(outs["json"].decode("utf-8"))
         js = hdr.get("stats", {})
         nontrivial = len(jgroups) > 0
@@ -162,7 +200,11 @@ def run(ctx):
                    "roots": [r.decode("utf-8", "replace") for r in roots]}
         # --- formats describe the same groups
         tstats, tgroups = parse_text(outs["default"])
-        fstats, fgroups = parse_text(outs["file"]) if outs["file"] else ({}, None)
+        try:
+            fstats, fgroups = parse_text(outs["file"]) if outs["file"] else ({}, None)
+        except Exception as e:  # noqa
+            ctx.violation({"kind": "output_file_unparsable"}, "the -o report cannot be parsed: %r" % (e,), {"tree": ti, "opts": opts}, found_input=True)
+            fstats, fgroups = {}, None
         cgroups = parse_csv(outs["csv"])
         dgroups = parse_fdupes(outs["fdupes"])
         jb = [(g["hash"], g["len"], g["files"]) for g in jgroups]
@@ -220,6 +262,13 @@ def run(ctx):
             if not ok:
                 ctx.violation({"kind": "group_does_not_satisfy_filter"}, "a reported group has %d replicas, filter %s %d" % (len(sgs), kind, rf),
                               dict(payload, group=[p.decode("utf-8", "replace") for p in g["files"]]), found_input=True)
+        if twin_dir is not None:
+            for g in jgroups:
+                tw = [pth for pth in g["files"] if os.path.dirname(pth) == twin_dir and os.path.basename(pth).startswith(b"caf")]
+                if len(tw) >= 2 and tw != sorted(tw):
+                    ctx.violation({"kind": "path_order_depends_on_more_than_the_set"},
+                                  "paths differing only in non-UTF-8 bytes are listed in %r, not in path order (the order follows inode/arrival order)" % tw,
+                                  dict(payload, twins=[repr(x) for x in tw]), found_input=True)
         # direct oracle for the stated path-order clause: paths of one --isolate root stay together, roots in the order given
         if iso_roots:
             def ridx(pth):
